@@ -19,6 +19,9 @@ FILES = ['Properties_C20.v']
 QUICK = [
     ('cl_clang11_O2_single_stdfn', 'cl.cpp', 'clang++', 'c++11', '-O2', ['VH_POLICY=1', 'VH_CB=0', 'VH_FILL=0xFF']),
     ('cl_gxx20_O0_spin_functor', 'cl.cpp', 'g++', 'c++20', '-O0', ['VH_POLICY=2', 'VH_CB=1', 'VH_FILL=0x00']),
+    # SpinLock below C++20 in storage that held non-zero bytes: its flag must not depend on what was there
+    ('cl_gxx17_O2_spin_functor_ff', 'cl.cpp', 'g++', 'c++17', '-O2', ['VH_POLICY=2', 'VH_CB=1', 'VH_FILL=0xFF']),
+    ('disp_clang11_O0_int_spin_ab', 'disp.cpp', 'clang++', 'c++11', '-O0', ['VH_KEY=0', 'VH_ARGMODE=0', 'VH_POLICY=2', 'VH_FILL=0xAB']),
     ('disp_clang14_O0_string_incl_map', 'disp.cpp', 'clang++', 'c++14', '-O0', ['VH_KEY=1', 'VH_ARGMODE=1', 'VH_MAP=1']),
     ('disp_gxx17_O2_hashed_inclref_umap_single', 'disp.cpp', 'g++', 'c++17', '-O2', ['VH_KEY=4', 'VH_ARGMODE=2', 'VH_MAP=2', 'VH_POLICY=1']),
     ('queue_clang17_O2_byvalue', 'queue.cpp', 'clang++', 'c++17', '-O2', ['VH_PROTO=1', 'VH_POLICY=0']),
